@@ -318,9 +318,9 @@ COUNTS = {
 
 def shards(tier, seed):
     n = 16
-    out = [{"name": "mix", "idx": i, "n": n, "budget_s": 600 if tier == "quick" else 3000} for i in range(n)]
+    out = [{"name": "mix", "idx": i, "n": n, "budget_s": 1200 if tier == "quick" else 6600} for i in range(n)]
     if tier == "thorough":
-        out.append({"name": "repotests", "idx": 0, "n": 1, "budget_s": 3000})
+        out.append({"name": "repotests", "idx": 0, "n": 1, "budget_s": 6600})
     return out
 
 
@@ -748,14 +748,19 @@ def run_shard(desc, ctx):
     if idx == 0:
         spec_vectors(ctx)
     phrases = roundtrips(ctx, rng, c["rt"])
-    last_word_sets(ctx, rng, c["heads"])
-    random_sequences(ctx, rng, c["randseq"])
-    token_forms(ctx, rng, phrases, c["forms"])
-    pbkdf2_direct(ctx, rng, c["pb"])
-    kdf_direct(ctx, rng, c["kdf"])
-    secure(ctx, rng, c["secure"])
-    seeds(ctx, rng, phrases, c["seeds"])
-    ctx.out_of_time()
+    steps = [
+        lambda: last_word_sets(ctx, rng, c["heads"]),
+        lambda: random_sequences(ctx, rng, c["randseq"]),
+        lambda: token_forms(ctx, rng, phrases, c["forms"]),
+        lambda: pbkdf2_direct(ctx, rng, c["pb"]),
+        lambda: kdf_direct(ctx, rng, c["kdf"]),
+        lambda: secure(ctx, rng, c["secure"]),
+        lambda: seeds(ctx, rng, phrases, c["seeds"]),
+    ]
+    for step in steps:
+        if ctx.out_of_time():  # safety cap only: an unfinished counted workload makes the run inconclusive
+            return
+        step()
 
 
 def replay(case, ctx):
